@@ -132,6 +132,50 @@ class ControlPointGridSize:
         K.ensure("seq", E.bconst(tuple(n) == (7, 5, 5)), text="per-axis sizes and strides are paired in the given order", kind="helper")
 
 
+@register
+class ControlPointGridPlacement:
+    """cubic_bspline_control_point_grid(grid, stride): the grid of control points of a spline whose evaluated field lies on
+    `grid`: control point k (per axis) sits at image index (k - 1) * stride, i.e. the control grid starts one control point
+    before the first image sample, its points are `stride` image samples apart along the image axes, and - with the size
+    decided above - its last-but-one point lies at or beyond the last image sample, so the evaluated field covers the
+    whole image grid in world space for every orientation."""
+
+    target = "deepali.core.bspline:cubic_bspline_control_point_grid"
+    properties = ("C14",)
+
+    def cases(self, tier):
+        for D in (2, 3):
+            for stride in ((1, 2, 3) if D == 2 else (2,)) + (((4, 2),) if D == 2 else ((1, 2, 3),)):
+                yield {"D": D, "stride": stride}
+
+    def run(self, case, K):
+        from contracts.common import as_affine, make_grid
+        from deepali.core.bspline import cubic_bspline_control_point_grid
+        from deepali.core.grid import Axes
+        from spec import grid as SG
+
+        D, stride = case["D"], case["stride"]
+        sizes = (7, 5) if D == 2 else (5, 4, 6)
+        g, gs = make_grid(K, "g", D, sizes=sizes)
+        cp = K.call(cubic_bspline_control_point_grid, g, stride)
+        if not K.ensure_returns(cp, text=Q14G):
+            return
+        st = [stride] * D if isinstance(stride, int) else list(stride)
+        M = K.call(cp.transform, Axes.GRID, Axes.WORLD)
+        if not K.ensure_returns(M):
+            return
+        # spec: world position of control point k = image index_to_world((k - 1) * s)
+        A, t = SG.point_map(gs, "grid", gs, "world")
+        want = np.empty((D, D + 1), dtype=object)
+        for i in range(D):
+            for j in range(D):
+                want[i, j] = E.mul(A[i, j], st[j])
+            want[i, D] = E.sub(t[i], E.add(*[E.mul(A[i, j], st[j]) for j in range(D)]))
+        K.ensure_eq("placement", as_affine(K, M)[:D], want, text=Q14G + " [control point k lies at image index (k-1)*stride: world map of the control grid]")
+        n = [int(v) for v in cp.size()]
+        K.ensure("covers", E.bconst(all((n[d] - 3) * st[d] >= sizes[d] for d in range(D))), text=Q14G + " [size]")
+
+
 def spline_spec(c: np.ndarray, strides, derivs, shape=None):
     """Tensor-product evaluation  out[j] = sum_k c[floor(j/s) + k] * w[j mod s][k]  per axis, from the analytic basis.
     c: (N, C, *n) object array; strides/derivs in tensor-axis order."""
